@@ -118,7 +118,8 @@ fn gen_opts_for(lang: &str, r: &mut Rng, tier: Tier) -> GenOpts {
 pub fn gen_c06(r: &mut Rng, tier: Tier) -> Case {
     let (lang, mode) = pick_lang_mode(r);
     let mut o = gen_opts_for(&lang, r, tier);
-    o.same_names = false;
+    o.same_names = std::env::var_os("VERIF_PROBE_SAME_NAMES").is_some() && r.chance(1, 4);
+    o.reexports = std::env::var_os("VERIF_PROBE_REEXPORTS").is_some() && r.chance(1, 3);
     let world = gen::gen_world(r, &o);
     let tree0 = world.render();
     let config = gen::default_config(r, &lang, false);
@@ -297,10 +298,11 @@ fn eval_c06(case: &Case, sc: &mut Scratch, res: &mut EvalResult) {
             if ob != ref_bytes {
                 let (file, msg) = first_diff(&ref_bytes, &ob);
                 let ext = Path::new(&file).extension().map(|e| e.to_string_lossy().into_owned()).unwrap_or_default();
+                let dup = if case.versions.iter().any(has_duplicate_names) { "|dup_names" } else { "" };
                 res.violations.push(Violation {
                     property: "C06".into(),
                     class,
-                    detail: format!("{}/{:?}/.{}", inv.lang, inv.mode, ext),
+                    detail: format!("{}/{:?}/.{}{dup}", inv.lang, inv.mode, ext),
                     message: format!("output differs from the reference run when varying {}: {}", dims.join("+"), msg),
                     op_index: idx,
                 });
